@@ -56,6 +56,15 @@ def body(chk):
         lo = {(0, ln, "sar_image_data_line_number"): v for ln, v in enumerate(nums)}
         cases.append(dict(level=("1.5", "1.1")[j % 2], seed=chk.seed + 97 + j, k=None, files=("IMG",), images=(("HH", None, len(nums), 2), ("HV", None, 2, 1)), fs="local",
                           line_overrides=lo, tag=f"line-numbers:{'-'.join(map(str, nums))}", rpc=(2, 1024, 3)[j % 3]))
+    # the product inside an archive (zip / tar members are plain stream objects) with line counts that are not a multiple of the request size
+    for j, (fsn, n, rpc) in enumerate((("zip", 5, 2), ("tar", 7, 3), ("zip", 10, 4), ("tar", 5, 1024), ("zip", 7, 7), ("tar", 9, 5))):
+        cases.append(dict(level=("1.1", "1.5")[j % 2], seed=chk.seed + 110 + j, k=j, files=("IMG",), images=(("HH", None, n, 2), ("HV", None, max(1, n - 2), 1)), fs=fsn, rpc=rpc,
+                          tag=f"{fsn}:{n}-lines:rpc{rpc}"))
+    # an object-store style file system (files are AbstractBufferedFile objects: one range request per read) with several request groups, the last
+    # one shorter: entries stay in file order whatever finishes first
+    for j, (n, rpc) in enumerate(((7, 3), (300, 128), (10, 4), (5, 1), (260, 256))):
+        cases.append(dict(level=("1.1", "1.5")[j % 2], seed=chk.seed + 120 + j, k=j, files=("IMG",), images=(("HH", None, n, 2), ("HV", None, max(1, n - 2), 1)), fs="vtrace-buffered", rpc=rpc,
+                          tag=f"buffered:{n}-lines:rpc{rpc}"))
     n_rand = 24 if chk.tier == "quick" else 800
     for j in range(n_rand):
         level = ("1.5", "1.1", "3.1")[j % 3]
